@@ -534,7 +534,7 @@ func runExhaust(c *Ctx, r *Reporter, spec dispatcherSpec) {
 var ruleNarrow = &Rule{
 	ID:    "R-NARROW",
 	Doc:   "every conversion of an int to a narrower integer type in pkg/bytecode is dominated by a range check of the converted value (operands, jump targets and constant indices cannot wrap)",
-	Floor: 2,
+	Floor: 1, // the encoder and the patcher may share one range-checked helper
 	Run:   runNarrow,
 }
 
@@ -979,6 +979,19 @@ func mayBeNilError(v ssa.Value, b *ssa.BasicBlock, depth int) bool {
 	case *ssa.Call:
 		if f := x.Call.StaticCallee(); f != nil && f.Pkg != nil && f.Pkg.Pkg.Path() == "fmt" && f.Name() == "Errorf" {
 			return false
+		}
+		// a function of the program that builds the error: every return of it hands out a non-nil error
+		if f := x.Call.StaticCallee(); f != nil && len(f.Blocks) > 0 && depth < 3 && f.Signature.Results().Len() == 1 {
+			all := true
+			rets := returnsOf(f)
+			for _, ret := range rets {
+				if mayBeNilError(ret.Results[0], ret.Block(), depth+2) {
+					all = false
+				}
+			}
+			if all && len(rets) > 0 {
+				return false
+			}
 		}
 	}
 	// value tested non-nil by a dominating `if err != nil` whose true branch leads here
